@@ -16,7 +16,7 @@ def itemsOfLines (lines : List Line) : Except Err (List Item) := do
   frontEnd.parseAll toks
 
 theorem frontEnd_source (fs : FS) (cwd : String) (dirs : List String) (text : String)
-    (h1 : normAbs cwd = true) (h2 : dirs.all normAbs = true)
+    (h1 : normAbs cwd = true) (h2 : dirs.all absOk = true)
     (h3 : text.toList.all (fun c => c.toNat < 128) = true) :
     frontEnd fs cwd dirs (.source text) =
       (readLinesAux fs dirs (fs.files.length + 2) "<string>" cwd text.toList).bind itemsOfLines := by
@@ -25,10 +25,10 @@ theorem frontEnd_source (fs : FS) (cwd : String) (dirs : List String) (text : St
   rfl
 
 theorem frontEnd_path (fs : FS) (cwd : String) (dirs : List String) (p : String) (bs : List Nat)
-    (src : List Char) (h1 : normAbs cwd = true) (h2 : dirs.all normAbs = true) (hp : normAbs p = true)
-    (hr : fs.readBytes p = some bs) (ha : bytesToAscii bs = some src) :
+    (src : List Char) (h1 : normAbs cwd = true) (h2 : dirs.all absOk = true) (hp : absOk p = true)
+    (hr : fs.readAt p = some bs) (ha : bytesToAscii bs = some src) :
     frontEnd fs cwd dirs (.path p) =
-      (readLinesAux fs dirs (fs.files.length + 2) p (pathDirname p) src).bind itemsOfLines := by
+      (readLinesAux fs dirs (fs.files.length + 2) p (baseOf p) src).bind itemsOfLines := by
   unfold frontEnd
   simp only [h1, h2, hp, hr, ha]
   rfl
